@@ -144,7 +144,7 @@ func c04Scenario(r *vkit.Run, in c04Input) {
 	if in.Mode == "perm" {
 		bound = 0
 	}
-	st := vsched.Explore(bound, 0, func(c *vsched.Ctx) {
+	body := func(c *vsched.Ctx) {
 		r.BeginChoices("C04", in, c.Prefix())
 		obs := c04Exec(c, in)
 		r.Eval()
@@ -160,14 +160,24 @@ func c04Scenario(r *vkit.Run, in c04Input) {
 		}
 		outcomes[strings.Join(obs.Out, "|")] = true
 		openOrders[fmt.Sprint(obs.OpenOrder)] = true
-		if in.Mode == "perm" && fmt.Sprint(obs.Completed) != fmt.Sprint(in.Perm) {
+		if (in.Mode == "perm" || in.Mode == "perm1") && fmt.Sprint(obs.Completed) != fmt.Sprint(in.Perm) {
 			// not a property violation: the gate failed to produce the order -> harness problem
 			r.Count("perm_order_not_realised", 1)
 		}
 		if c.Diverged != "" {
 			r.HarnessError("replay divergence: %s", c.Diverged)
 		}
-	}, func(c *vsched.Ctx) bool { return !r.Stop() })
+	}
+	var st vsched.Stats
+	if in.Mode == "perm1" {
+		// the one execution that realises the completion order Perm (with many containers the scheduling choices that
+		// are free of cost, i.e. which thread runs after a blocked one, are too many to enumerate)
+		c := vsched.NewCtx(nil)
+		body(c)
+		st = vsched.Stats{Executions: 1, Points: int64(len(c.TrimmedChoices()))}
+	} else {
+		st = vsched.Explore(bound, 0, body, func(c *vsched.Ctx) bool { return !r.Stop() })
+	}
 	r.Step(int(st.Points) + int(st.Executions)) // choice points + one input->outcome transition per execution
 	r.Count("schedules", st.Executions)
 	r.Count("schedules_with_preemption_or_switch", st.Deviating)
@@ -298,7 +308,34 @@ func c04Run(r *vkit.Run) {
 			}
 		}
 	}
-	r.Note("bounds", fmt.Sprintf("N<=3 containers x sequences of <=%d records over 3 timestamps, preemption bound %d; %d inventories with all interleavings; all N! completion orders for N<=%d", maxLen, bound, len(sel), maxN))
+	// (d) many containers (beyond every small-size threshold of heap, slice and map code): rotations and the reversal of
+	// the completion order, records with ties across containers and long per-container logs
+	for _, n := range []int{9, 17, 65} {
+		logs := make([][]int, n)
+		for i := range logs {
+			for j := 0; j < 1+i%4; j++ {
+				logs[i] = append(logs[i], 1+(i+j)%3+j)
+			}
+			sort.Ints(logs[i])
+		}
+		logs[n/2] = nil
+		long := make([]int, 300)
+		for j := range long {
+			long[j] = 1 + j/100
+		}
+		logs[n-1] = long
+		for _, rot := range []int{0, 1, n / 2} {
+			p := make([]int, n)
+			q := make([]int, n)
+			for i := range p {
+				p[i] = (i + rot) % n
+				q[i] = n - 1 - p[i]
+			}
+			emit(c04Input{Logs: logs, Mode: "perm1", Perm: p})
+			emit(c04Input{Logs: logs, Mode: "perm1", Perm: q})
+		}
+	}
+	r.Note("bounds", fmt.Sprintf("N<=3 containers x sequences of <=%d records over 3 timestamps, preemption bound %d; %d inventories with all interleavings; all N! completion orders for N<=%d; 9, 17 and 65 containers (one with 300 records) under 6 completion orders each", maxLen, bound, len(sel), maxN))
 }
 
 func c04Replay(r *vkit.Run, v vkit.Violation) *vkit.Violation {
